@@ -24,88 +24,101 @@ None == "none"
 VARIABLES l,          \* next event
           ctx, paused, st, scanning, envw, pendingIrq, exited,
           startedT, registeredT,   \* spawned threads that run / that are on the thread list
+          asked,      \* asked[t]: threads with an outstanding stop request on t
           bad         \* ghost verdicts: set of <<tag, event index>>
-vars == <<l, ctx, paused, st, scanning, envw, pendingIrq, exited, startedT, registeredT, bad>>
+vars == <<l, ctx, paused, st, scanning, envw, pendingIrq, exited, startedT, registeredT, asked, bad>>
 
 Init == /\ l = 1
         /\ ctx = [t \in Thread |-> FALSE] /\ paused = [t \in Thread |-> FALSE]
         /\ st = [t \in Thread |-> "Running"]
         /\ scanning = [t \in Thread |-> None] /\ envw = [t \in Thread |-> None]
         /\ pendingIrq = [t \in Thread |-> FALSE] /\ exited = {} /\ bad = {}
-        /\ startedT = {} /\ registeredT = {}
+        /\ startedT = {} /\ registeredT = {} /\ asked = [t \in Thread |-> {}]
 
 E == Events[l]
 Is(names) == l <= N /\ E.ev \in names
 Adv == l' = l + 1
 Flag(tag) == bad' = bad \cup {<<tag, l>>}
 
+\* the stopper reads or writes another thread's state only after asking that thread to stop
+\* (Synchronizer::stop_threads sets every listed thread's controller to PausedAtSafepoint first);
+\* a thread that was never asked leaves its safepoint at once and runs under the stopper's hands
+\* (asked[t] = the threads whose stop request on t is outstanding: CTRL_PAUSE by th, until CTRL_RESUME by th.
+\* The thread's own flag `paused` may have been cleared meanwhile by a resume of ANOTHER stop-the-world
+\* operation; that is the business of C16, not a breach here while the thread is parked.)
+NotAsked == E.th # E.tgt /\ E.th \notin asked[E.tgt]
+
 Publish == /\ Is({"SP_PUBLISH", "POLL_PUBLISH"}) /\ Adv
            /\ ctx' = [ctx EXCEPT ![E.th] = TRUE]
-           /\ UNCHANGED <<paused, st, scanning, envw, pendingIrq, exited, bad, startedT, registeredT>>
+           /\ UNCHANGED <<paused, st, scanning, envw, pendingIrq, exited, bad, startedT, registeredT, asked>>
 \* retracting while another thread reads or writes this thread's state is the C15 breach
 Retract == /\ Is({"SP_RETRACT", "POLL_RETRACT"}) /\ Adv
            /\ ctx' = [ctx EXCEPT ![E.th] = FALSE]
            /\ IF scanning[E.th] # None \/ envw[E.th] # None THEN Flag("C15a-retract-while-scanned") ELSE UNCHANGED bad
-           /\ UNCHANGED <<paused, st, scanning, envw, pendingIrq, exited, startedT, registeredT>>
+           /\ UNCHANGED <<paused, st, scanning, envw, pendingIrq, exited, startedT, registeredT, asked>>
 Dispatch == /\ Is({"DISPATCH"}) /\ Adv
             /\ IF scanning[E.th] # None \/ envw[E.th] # None THEN Flag("C15a-runs-while-scanned") ELSE UNCHANGED bad
-            /\ UNCHANGED <<ctx, paused, st, scanning, envw, pendingIrq, exited, startedT, registeredT>>
+            /\ UNCHANGED <<ctx, paused, st, scanning, envw, pendingIrq, exited, startedT, registeredT, asked>>
 ScanBegin == /\ Is({"SCAN_BEGIN"}) /\ Adv
              /\ scanning' = [scanning EXCEPT ![E.tgt] = E.th]
-             /\ IF ~ctx[E.tgt] THEN Flag("C15a-scan-of-unpublished-thread") ELSE UNCHANGED bad
-             /\ UNCHANGED <<ctx, paused, st, envw, pendingIrq, exited, startedT, registeredT>>
+             /\ bad' = bad \cup (IF ~ctx[E.tgt] THEN {<<"C15a-scan-of-unpublished-thread", l>>} ELSE {})
+                            \cup (IF NotAsked THEN {<<"C15-access-to-thread-never-asked-to-stop", l>>} ELSE {})
+             /\ UNCHANGED <<ctx, paused, st, envw, pendingIrq, exited, startedT, registeredT, asked>>
 ScanEnd == /\ Is({"SCAN_END"}) /\ Adv
            /\ scanning' = [scanning EXCEPT ![E.tgt] = None]
-           /\ UNCHANGED <<ctx, paused, st, envw, pendingIrq, exited, bad, startedT, registeredT>>
+           /\ UNCHANGED <<ctx, paused, st, envw, pendingIrq, exited, bad, startedT, registeredT, asked>>
 EnvBegin == /\ Is({"ENV_WRITE_BEGIN"}) /\ Adv
             /\ envw' = [envw EXCEPT ![E.tgt] = E.th]
-            /\ IF ~ctx[E.tgt] THEN Flag("C15a-write-to-unpublished-thread") ELSE UNCHANGED bad
-            /\ UNCHANGED <<ctx, paused, st, scanning, pendingIrq, exited, startedT, registeredT>>
+            /\ bad' = bad \cup (IF ~ctx[E.tgt] THEN {<<"C15a-write-to-unpublished-thread", l>>} ELSE {})
+                           \cup (IF NotAsked THEN {<<"C15-access-to-thread-never-asked-to-stop", l>>} ELSE {})
+            /\ UNCHANGED <<ctx, paused, st, scanning, pendingIrq, exited, startedT, registeredT, asked>>
 EnvEnd == /\ Is({"ENV_WRITE_END"}) /\ Adv
           /\ envw' = [envw EXCEPT ![E.tgt] = None]
-          /\ UNCHANGED <<ctx, paused, st, scanning, pendingIrq, exited, bad, startedT, registeredT>>
+          /\ UNCHANGED <<ctx, paused, st, scanning, pendingIrq, exited, bad, startedT, registeredT, asked>>
 \* ThreadStateController: pause_for_safepoint / resume / interrupt / suspend
 Pause == /\ Is({"CTRL_PAUSE"}) /\ Adv
          /\ paused' = [paused EXCEPT ![E.tgt] = TRUE] /\ st' = [st EXCEPT ![E.tgt] = "PausedAtSafepoint"]
          /\ IF pendingIrq[E.tgt] THEN Flag("C17-interrupt-overwritten") ELSE UNCHANGED bad
          /\ pendingIrq' = [pendingIrq EXCEPT ![E.tgt] = FALSE]
+         /\ asked' = [asked EXCEPT ![E.tgt] = @ \cup {E.th}]
          /\ UNCHANGED <<ctx, scanning, envw, exited, startedT, registeredT>>
 Resume == /\ Is({"CTRL_RESUME"}) /\ Adv
           /\ paused' = [paused EXCEPT ![E.tgt] = FALSE] /\ st' = [st EXCEPT ![E.tgt] = "Running"]
           /\ IF pendingIrq[E.tgt] THEN Flag("C17-interrupt-overwritten") ELSE UNCHANGED bad
           /\ pendingIrq' = [pendingIrq EXCEPT ![E.tgt] = FALSE]
+          /\ asked' = [asked EXCEPT ![E.tgt] = @ \ {E.th}]
           /\ UNCHANGED <<ctx, scanning, envw, exited, startedT, registeredT>>
 Interrupt == /\ Is({"CTRL_INTERRUPT"}) /\ Adv
              /\ paused' = [paused EXCEPT ![E.tgt] = TRUE] /\ st' = [st EXCEPT ![E.tgt] = "Interrupted"]
              /\ pendingIrq' = [pendingIrq EXCEPT ![E.tgt] = TRUE]
-             /\ UNCHANGED <<ctx, scanning, envw, exited, bad, startedT, registeredT>>
+             /\ UNCHANGED <<ctx, scanning, envw, exited, bad, startedT, registeredT, asked>>
 Suspend == /\ Is({"CTRL_SUSPEND"}) /\ Adv
            /\ paused' = [paused EXCEPT ![E.tgt] = TRUE] /\ st' = [st EXCEPT ![E.tgt] = "Suspended"]
-           /\ UNCHANGED <<ctx, scanning, envw, pendingIrq, exited, bad, startedT, registeredT>>
+           /\ UNCHANGED <<ctx, scanning, envw, pendingIrq, exited, bad, startedT, registeredT, asked>>
 Raised == /\ Is({"RAISED"}) /\ Adv
           /\ pendingIrq' = [pendingIrq EXCEPT ![E.th] = FALSE]
-          /\ UNCHANGED <<ctx, paused, st, scanning, envw, exited, bad, startedT, registeredT>>
+          /\ UNCHANGED <<ctx, paused, st, scanning, envw, exited, bad, startedT, registeredT, asked>>
 Exit == /\ Is({"THREAD_EXIT"}) /\ Adv
         /\ exited' = exited \cup {E.th} /\ ctx' = [ctx EXCEPT ![E.th] = FALSE]
-        /\ UNCHANGED <<paused, st, scanning, envw, pendingIrq, bad, startedT, registeredT>>
+        /\ UNCHANGED <<paused, st, scanning, envw, pendingIrq, bad, startedT, registeredT, asked>>
 \* spawn-native-thread: the new thread starts running (THREAD_START, logged by itself) and is pushed
 \* on the thread list by its parent (REGISTERED) - in the code in that order
 Started == /\ Is({"THREAD_START"}) /\ Adv
            /\ startedT' = startedT \cup {E.th}
-           /\ UNCHANGED <<ctx, paused, st, scanning, envw, pendingIrq, exited, registeredT, bad>>
+           /\ UNCHANGED <<ctx, paused, st, scanning, envw, pendingIrq, exited, registeredT, asked, bad>>
 Registered == /\ Is({"REGISTERED"}) /\ Adv
               /\ registeredT' = registeredT \cup {E.tgt}
-              /\ UNCHANGED <<ctx, paused, st, scanning, envw, pendingIrq, exited, startedT, bad>>
+              /\ UNCHANGED <<ctx, paused, st, scanning, envw, pendingIrq, exited, startedT, asked, bad>>
 \* end of a stop-the-world operation: every running spawned thread must have been on the list
 \* (otherwise it was neither stopped nor scanned nor given the new global table)
 StwEnd == /\ Is({"STW_END"}) /\ Adv
           /\ IF \E t \in startedT : t \notin registeredT /\ t \notin exited /\ t # E.th
                THEN Flag("C15-unregistered-thread-runs-during-stop") ELSE UNCHANGED bad
-          /\ UNCHANGED <<ctx, paused, st, scanning, envw, pendingIrq, exited, startedT, registeredT>>
+          /\ UNCHANGED <<ctx, paused, st, scanning, envw, pendingIrq, exited, startedT, registeredT, asked>>
 \* events that carry no state of the projection (parks, loop reads, brackets)
 Other == /\ Is({"SP_PARK", "POLL_PARK", "SP_READ_PAUSED", "POLL_LOOP_READ", "STW_BEGIN",
                "SPAWNED", "REGISTERING", "UNPARK", "HEAP_LOCKED"}) /\ Adv
-         /\ UNCHANGED <<ctx, paused, st, scanning, envw, pendingIrq, exited, bad, startedT, registeredT>>
+         /\ UNCHANGED <<ctx, paused, st, scanning, envw, pendingIrq, exited, bad, startedT, registeredT, asked>>
 
 Next == Publish \/ Retract \/ Dispatch \/ ScanBegin \/ ScanEnd \/ EnvBegin \/ EnvEnd \/ Pause \/ Resume
         \/ Interrupt \/ Suspend \/ Raised \/ Exit \/ Started \/ Registered \/ StwEnd \/ Other
@@ -114,7 +127,8 @@ Spec == Init /\ [][Next]_vars
 \* Safepoint.tla's properties on the logged projection
 C15 == \A x \in bad : x[1] \notin {"C15a-retract-while-scanned", "C15a-runs-while-scanned",
                                    "C15a-scan-of-unpublished-thread", "C15a-write-to-unpublished-thread",
-                                   "C15-unregistered-thread-runs-during-stop"}
+                                   "C15-unregistered-thread-runs-during-stop",
+                                   "C15-access-to-thread-never-asked-to-stop"}
 C17 == /\ \A x \in bad : x[1] # "C17-interrupt-overwritten"
        /\ \A t \in Thread : pendingIrq[t] => (paused[t] /\ st[t] = "Interrupted")
 \* the whole trace must be consumed (an event the specification cannot take = spec drift)
